@@ -583,6 +583,9 @@ def C_axis_diag(repo, clause):
                 gs = norm_guards(fn, c)
                 for t, pol, k in gs:
                     te = expand(fn, t)
+                    if te is not t:
+                        from .common import strip_not
+                        te, pol = strip_not(te, pol)      # a flag such as `wrap_fractional = not cell_is_orthorhombic()` taken negatively IS the orthorhombic guard
                     txt = ast.unparse(te)
                     if "cell_is_orthorhombic" in txt and isinstance(te, ast.Call) and pol:
                         ok, why = True, "dominated by the guard %s" % txt
@@ -1317,14 +1320,22 @@ def C_quaternion_layout(repo, clause):
         tgt = [const_value(x) for x in qc[0].args[1].elts]
         k = [i for i, v in enumerate(tgt) if v]
         sl = [s_ for s_ in fn.own_nodes() if isinstance(s_, ast.Subscript) and isinstance(s_.slice, ast.Tuple) and len(s_.slice.elts) == 2 and isinstance(s_.slice.elts[1], ast.Slice)]
+        cols = None
         if len(k) == 1 and len(sl) == 1:
             lo, hi = const_value(sl[0].slice.elts[1].lower), const_value(sl[0].slice.elts[1].upper)
             lo = 0 if lo is None else lo
             cols = set(range(lo, 3 if hi is None else hi))
+        elif len(k) == 1 and not sl:
+            # single columns: ratoms[:, 1], ratoms[:, 2] (read anywhere in the function)
+            single = [s_ for s_ in fn.own_nodes() if isinstance(s_, ast.Subscript) and isinstance(s_.slice, ast.Tuple) and len(s_.slice.elts) == 2
+                      and isinstance(s_.slice.elts[0], ast.Slice) and isinstance(const_value(s_.slice.elts[1]), int)]
+            if single:
+                cols = {const_value(s_.slice.elts[1]) for s_ in single}
+        if cols is not None:
             ok = cols == {0, 1, 2} - {k[0]}
             positive = True
             detail = "axis is rotated onto coordinate %d; distance from the axis is measured in coordinates %s" % (k[0], sorted(cols))
-    obs.append(Ob("Cquat", clause, fn, qc[0] if qc else fn.node, ok, detail, slot="farthest-from-axis-columns", positive=positive))
+    obs.append(Ob("Cquat", clause, fn, qc[0] if qc else fn.node, ok, detail, slot="farthest-from-axis-columns", positive=positive, undecided=not positive and bool(qc)))
     obs.extend(_roll_sign(repo, clause))
     return obs
 
